@@ -222,13 +222,27 @@ def run_coqc_many(paths, jobs=14, timeout=1800):
     return out
 
 
-_triple = re.compile(r"\((\d+)%?Z?,\s*(\d+)%?Z?,\s*(\d+)%?Z?\)")
+_triple = re.compile(r"\(\s*(\d+)%?Z?\s*,\s*(\d+)%?Z?\s*,\s*(\d+)%?Z?\s*\)")
 
 
 def parse_results(stdout):
-    """Parse `= [(i, a, b); ...] : list (Z*Z*Z)` printed by Eval vm_compute."""
+    """Parse `= [(i, a, b); ...] : list (Z*Z*Z)` printed by Eval vm_compute.
+    Strict: anything that does not parse is an error, never an empty result."""
     txt = " ".join(stdout.split())
-    return [(int(a), int(b), int(c)) for a, b, c in _triple.findall(txt)]
+    m = re.search(r"=\s*\[(.*)\]\s*:\s*list", txt)
+    if not m:
+        raise CoqError("no list result in coqc output: " + txt[:500])
+    body = m.group(1).strip()
+    if not body:
+        return []
+    items = body.split(";")
+    out = []
+    for it in items:
+        mm = _triple.fullmatch(it.strip())
+        if not mm:
+            raise CoqError("unparsable result item: " + it[:200])
+        out.append(tuple(int(x) for x in mm.groups()))
+    return out
 
 
 def parse_zlist(stdout):
